@@ -28,7 +28,7 @@ PROOF_FILES = ["theories/Props/C03.v", "theories/Proofs/SupportA.v", "theories/P
 FUEL = 100000
 DIR_CLASSES = ["random", "random", "axis", "sign", "sign", "pow2", "pow2", "shape_axis", "shape_orth"]
 EPS10 = Fr(10) / Fr(2 ** 52)
-CERTS_PER_GROUP = 9   # answers per case and observable submitted to the Coq checker (feature directions first)
+CERTS_PER_GROUP = 7   # answers per case and observable submitted to the Coq checker (feature directions first)
 CASE_CPU = 40        # seconds of user CPU time one case may burn in a shared worker (normal: < 1 s)
 CONFIRM_CPU = 600    # ... when re-run alone, before it is reported as non-terminating
 
@@ -103,7 +103,10 @@ def feature_dirs(sh):
         a0, a1 = sh["a0"], sh["a1"]
         cr = [a0[1] * a1[2] - a0[2] * a1[1], a0[2] * a1[0] - a0[0] * a1[2], a0[0] * a1[1] - a0[1] * a1[0]]
         out += [("axis0", list(a0)), ("axis1-", [-a for a in a1]), ("normal", cr)]
-    out += [("axis_z", [0.0, 0.0, 1.0]), ("axis_-y", [0.0, -2.0, 0.0]), ("pow2_xy", [1.0, -1.0, 0.0])]
+    # "underflow": the squares of the components are 0 in binary64, so norms computed as sqrt(sum of
+    # squares) vanish although d != 0 (the s == 0 arm of the capsule is reachable only this way)
+    out += [("axis_z", [0.0, 0.0, 1.0]), ("axis_-y", [0.0, -2.0, 0.0]), ("pow2_xy", [1.0, -1.0, 0.0]),
+            ("underflow", [2.0 ** -600, 0.0, -(2.0 ** -600)])]
     return [(c, [float(x) + 0.0 for x in d]) for c, d in out if any(x != 0.0 for x in d)]
 
 
